@@ -245,3 +245,15 @@ Theorem C20_pscript_agrees_oracle : forall pre ctxs ops o0 obs fin leak,
   oracle (CPScript pre ctxs ops o0 obs fin leak) = true.
 Proof. exact pscript_agrees_oracle. Qed.
 Print Assumptions C20_pscript_agrees_oracle.
+
+(* THE WATCHER ENDS WITH THE POOL, AT EVERY LOOK.  For EVERY script - creation, any operations,
+   then the end of every context - in each settled state (after creation, after each operation,
+   e.g. after a Cancel while members are still live or can never end) the watcher goroutine has
+   returned exactly when the pool's context is done.  The harness takes this look (goroutines of
+   the package by stack match) every time it sees the pool done; [leak] in a case is its failure. *)
+Theorem C20_script_watcher_ends_with_pool : forall pre ctxs ops,
+  let s0 := settle (new_pool pre ctxs) in
+  Forall (fun s => watcher_gone s = ctx_done s)
+         (s0 :: script_states s0 (ops ++ end_all (pre ++ ctxs ++ op_ids ops))).
+Proof. exact script_watcher_ends_with_pool. Qed.
+Print Assumptions C20_script_watcher_ends_with_pool.
